@@ -250,3 +250,34 @@ func (g *G) coos(rows, cols int, class string, zeroFrac int) []sparse.CooEntry {
 	}
 	return es
 }
+
+// vecPairBig: operands of very different (or similar) LARGE lengths - the sizes at which an implementation may switch
+// to another strategy (searching the longer operand, block-wise merging): a long operand with 32..600 stored entries
+// and a short one with 1..12, whose indices hit and miss the long support in every alignment (a miss directly
+// followed by a hit, a short index before the first / after the last long index, runs of hits).
+func (g *G) vecPairBig() (*sparse.Vector, *sparse.Vector) {
+	dim := 40 + g.intn(700)
+	nLong := 32 + g.intn(dim-31)
+	long := g.vecOn(dim, g.support(dim, nLong), g.pick("positive", "ordinary", "positive"))
+	var short *sparse.Vector
+	switch mode := g.pick("skew", "skew", "skew-adjacent", "similar", "single"); mode {
+	case "skew":
+		short = g.vecOn(dim, g.support(dim, 1+g.intn(12)), g.pick("positive", "ordinary"))
+	case "skew-adjacent": // runs of adjacent indices: a miss is followed at once by a possible hit
+		start := g.intn(dim)
+		var idx []int
+		for i := start; i < dim && len(idx) < 2+g.intn(8); i++ {
+			idx = append(idx, i)
+		}
+		short = g.vecOn(dim, idx, "positive")
+	case "similar":
+		short = g.vecOn(dim, g.support(dim, nLong/2+g.intn(nLong/2+1)), g.pick("positive", "ordinary"))
+	default:
+		short = g.vecOn(dim, []int{g.intn(dim)}, "positive")
+	}
+	g.count("bigpair")
+	if g.intn(2) == 0 {
+		return short, long
+	}
+	return long, short
+}
